@@ -1,8 +1,8 @@
 use super::db_ops::store_user_in_db;
 use super::storage::AuthStorage;
 use super::types::{
-    AuthError, AuthResult, MAX_SECRET_KEY_LENGTH, MAX_USER_ID_LENGTH, PermissionCache, User,
-    UserCache, UserKey,
+    AuthError, AuthResult, BYPASS_USER_ID, MAX_SECRET_KEY_LENGTH, MAX_USER_ID_LENGTH,
+    NO_AUTH_USER_ID, PermissionCache, User, UserCache, UserKey,
 };
 use crate::shared::config::CONFIG;
 use std::collections::HashMap;
@@ -20,6 +20,11 @@ fn validate_user_id(user_id: &str) -> AuthResult<()> {
         return Err(AuthError::UserIdTooLong {
             max: MAX_USER_ID_LENGTH,
         });
+    }
+
+    // Reserved ids mark connections that skip permission checks; they can never name a real user.
+    if user_id == BYPASS_USER_ID || user_id == NO_AUTH_USER_ID {
+        return Err(AuthError::InvalidUserId);
     }
 
     if !user_id
